@@ -518,6 +518,10 @@ def iso_defs():
         env = {'self': me, 'J': J, 'invDF': buf, 'np': ('builtin', 'np')}
         for s in body[3:-1]:
             it.stmt(s, env)
+        adj = Buf(2)
+        adj.extents = (d, d)
+        adj.stores = dict(buf.stores)
+        out.append('(* the numerators of invDF (adjugate): invDF = iso_adj / detDF *)\n' + _buf_def(f'iso_adj_{d}', '(J : mat R)', adj, (d, d)))
         dterm = it.scalar(det).at([])
         for k in list(buf.stores):
             buf.stores[k] = f'({buf.stores[k]} / {dterm})'
